@@ -55,6 +55,7 @@ type c10PIn struct {
 	Cb      bool      `json:"cb"`
 	Fcodes  []int     `json:"fcodes"`
 	Smax    int64     `json:"smax"` // pool serverMaxBodySize (0 = default)
+	Slow    int64     `json:"slow"` // breaker slowCallDurationThreshold in ns (0 = default 1m)
 	Reqs    []c10PReq `json:"reqs"`
 }
 
@@ -65,6 +66,8 @@ type c10POut struct {
 	From   int     `json:"from"`   // attempt whose backend response the client would get; -1 = none / made by the gateway
 	Plen   int64   `json:"plen"`   // payload size of the response the client would get
 	Bodies int     `json:"bodies"` // attempts that received the complete request body
+	Cbt    int64   `json:"cbt"`    // breaker window total right after this request (-1 no breaker)
+	Cbf    int64   `json:"cbf"`    // breaker window failures right after this request
 	Gaps   []int64 `json:"gaps"`
 }
 
@@ -267,7 +270,7 @@ func c10RunPool(in c10PIn) (obs c10PObs) {
 			}
 			obs = c10PObs{Cbt: -1, Cbf: -1}
 			for range in.Reqs {
-				obs.Outs = append(obs.Outs, c10POut{Res: 9, From: -1, Gaps: []int64{}})
+				obs.Outs = append(obs.Outs, c10POut{Res: 9, From: -1, Cbt: -1, Cbf: -1, Gaps: []int64{}})
 			}
 		}
 	}()
@@ -305,13 +308,19 @@ func c10RunPool(in c10PIn) (obs c10PObs) {
 	}
 	if in.Cb {
 		pool["circuitBreakerPolicy"] = "c10cb"
-		policies["c10cb"] = c10Policy(map[string]interface{}{
+		cbraw := map[string]interface{}{
 			"name": "c10cb", "kind": "CircuitBreaker",
 			"slidingWindowType":    "COUNT_BASED",
 			"slidingWindowSize":    64,
 			"minimumNumberOfCalls": 1000, // never opens during the case
 			"failureRateThreshold": 50,
-		})
+		}
+		if in.Slow > 0 {
+			// low thresholds make retried requests (attempts + back-off waits) "slow" calls;
+			// only window TOTALS are observed, never the timing dependent slow count
+			cbraw["slowCallDurationThreshold"] = time.Duration(in.Slow).String()
+		}
+		policies["c10cb"] = c10Policy(cbraw)
 	}
 	raw := map[string]interface{}{
 		"name": "c10proxy", "kind": "Proxy",
@@ -328,17 +337,21 @@ func c10RunPool(in c10PIn) (obs c10PObs) {
 	c10BuildMu.Unlock()
 	locked = false
 
-	for _, rq := range in.Reqs {
-		obs.Outs = append(obs.Outs, c10Serve(px, in, rq))
-	}
-
-	obs.Cbt, obs.Cbf = -1, -1
-	if w := px.mainPool.circuitBreakerWrapper; in.Cb && w != nil {
-		// resilience.circuitBreakerWrapper{*libcb.CircuitBreaker}: embedded field 0
-		if cb, ok := reflect.ValueOf(w).Field(0).Interface().(*libcb.CircuitBreaker); ok {
-			obs.Cbt, obs.Cbf = libcb.VerifC10WindowTotals(cb)
+	totals := func() (int64, int64) {
+		if w := px.mainPool.circuitBreakerWrapper; in.Cb && w != nil {
+			// resilience.circuitBreakerWrapper{*libcb.CircuitBreaker}: embedded field 0
+			if cb, ok := reflect.ValueOf(w).Field(0).Interface().(*libcb.CircuitBreaker); ok {
+				return libcb.VerifC10WindowTotals(cb)
+			}
 		}
+		return -1, -1
 	}
+	for _, rq := range in.Reqs {
+		o := c10Serve(px, in, rq)
+		o.Cbt, o.Cbf = totals()
+		obs.Outs = append(obs.Outs, o)
+	}
+	obs.Cbt, obs.Cbf = totals()
 	return
 }
 
@@ -450,6 +463,9 @@ func c10PGen(r *vfRand, adv bool) (in c10PIn) {
 		in.Timeout = int64(r.PickInt(60, 80)) * c10PMs
 	}
 	in.Cb = r.Chance(1, 2)
+	if in.Cb && r.Chance(2, 3) {
+		in.Slow = int64(r.PickInt(1_000, 100_000, 1_000_000, 5_000_000))
+	}
 	if r.Chance(1, 2) {
 		in.Smax = int64(r.PickInt(16, 64, 1024))
 	}
